@@ -92,6 +92,59 @@ struct Mo {
     friend bool operator>=(Mo const& a, Mo const& b) { return a.v >= b.v; }
 };
 
+// Sm<Bits>: value v plus a mark g = which user-provided special member produced this object last
+// (1 copy ctor, 2 move ctor, 3 copy assignment, 4 move assignment, 0 = made from an int); a defaulted member
+// copies the source's mark.  bit 0: user-provided copy ctor, 1: move ctor, 2: copy assignment, 3: move
+// assignment, 4: the copy ctor is noexcept(false).  A user-provided move leaves -1 in the source; self
+// assignment is a no-op.
+template <unsigned Bits>
+struct Sm {
+    static constexpr bool UCC = (Bits & 1U) != 0, UMC = (Bits & 2U) != 0, UCA = (Bits & 4U) != 0, UMA = (Bits & 8U) != 0;
+    static constexpr bool NXC = (Bits & 16U) == 0;
+    int v;
+    int g;
+    Sm() noexcept : v(0), g(0) { }
+    Sm(int x) noexcept : v(x), g(0) { } // NOLINT
+    Sm(Sm const&) = default;
+    Sm(Sm const& o) noexcept(NXC) requires(UCC) : v(o.v), g(1) { }
+    Sm(Sm&&) = default;
+    Sm(Sm&& o) noexcept requires(UMC) : v(o.v), g(2) { o.v = -1; }
+    Sm& operator=(Sm const&) = default;
+    Sm& operator=(Sm const& o) noexcept requires(UCA)
+    {
+        if (this != &o) { v = o.v; g = 3; }
+        return *this;
+    }
+    Sm& operator=(Sm&&) = default;
+    Sm& operator=(Sm&& o) noexcept requires(UMA)
+    {
+        if (this != &o) { v = o.v; g = 4; o.v = -1; }
+        return *this;
+    }
+    friend bool operator==(Sm const& a, Sm const& b) { return a.v == b.v; }
+    friend bool operator!=(Sm const& a, Sm const& b) { return a.v != b.v; }
+    friend bool operator<(Sm const& a, Sm const& b) { return a.v < b.v; }
+    friend bool operator<=(Sm const& a, Sm const& b) { return a.v <= b.v; }
+    friend bool operator>(Sm const& a, Sm const& b) { return a.v > b.v; }
+    friend bool operator>=(Sm const& a, Sm const& b) { return a.v >= b.v; }
+};
+using KC = Sm<1>;  // c: user-provided copy ctor, everything else defaulted
+using KD = Sm<2>;  // d: user-provided move ctor
+using KA = Sm<4>;  // a: user-provided copy assignment
+using KB = Sm<8>;  // b: user-provided move assignment
+using KQ = Sm<15>; // q: all four user-provided, noexcept
+using KX = Sm<31>; // x: all four user-provided, copy ctor potentially throwing (copy-then-move in std)
+static_assert(!std::is_trivially_copy_constructible_v<KC> && std::is_trivially_copy_assignable_v<KC>
+              && std::is_trivially_move_constructible_v<KC> && std::is_trivially_move_assignable_v<KC>);
+static_assert(std::is_trivially_copy_constructible_v<KD> && !std::is_trivially_move_constructible_v<KD>
+              && std::is_trivially_copy_assignable_v<KD> && std::is_trivially_move_assignable_v<KD>);
+static_assert(std::is_trivially_copy_constructible_v<KA> && !std::is_trivially_copy_assignable_v<KA>
+              && std::is_trivially_move_constructible_v<KA> && std::is_trivially_move_assignable_v<KA>);
+static_assert(std::is_trivially_copy_constructible_v<KB> && std::is_trivially_copy_assignable_v<KB>
+              && std::is_trivially_move_constructible_v<KB> && !std::is_trivially_move_assignable_v<KB>);
+static_assert(std::is_nothrow_copy_constructible_v<KQ> && !std::is_nothrow_copy_constructible_v<KX>
+              && std::is_nothrow_move_constructible_v<KX>);
+
 template <typename T>
 T mk(long long n)
 {
@@ -109,6 +162,64 @@ inline std::string show(float x) { return std::isnan(x) ? std::string("fnan") : 
 inline std::string show(Trk const& x) { return "t" + std::to_string(x.v); }
 inline std::string show(Mo const& x) { return "m" + std::to_string(x.v); }
 inline std::string show(etl::nullopt_t) { return "-"; }
+template <unsigned B>
+std::string show(Sm<B> const& x)
+{
+    char const c = B == 1 ? 'c' : B == 2 ? 'd' : B == 4 ? 'a' : B == 8 ? 'b' : B == 15 ? 'q' : 'x';
+    return std::string(1, c) + std::to_string(x.v) + "." + std::to_string(x.g);
+}
+
+// ---------------------------------------------------------------- value categories
+// 0 = T&, 1 = T const&, 2 = T&&, 3 = T const&&
+template <typename A>
+constexpr int cat_code()
+{
+    using R = std::remove_reference_t<A>;
+    return std::is_lvalue_reference_v<A> ? (std::is_const_v<R> ? 1 : 0) : (std::is_const_v<R> ? 3 : 2);
+}
+template <int Q, typename V>
+decltype(auto) as_cat(V& v)
+{
+    if constexpr (Q == 0) { return (v); }
+    else if constexpr (Q == 1) { return std::as_const(v); }
+    else if constexpr (Q == 2) { return std::move(v); }
+    else { return std::move(std::as_const(v)); }
+}
+// run-time: which reference kind each argument arrives as
+struct CatVis {
+    std::string* out;
+    template <typename... A>
+    int operator()(A&&... /*a*/) const
+    {
+        ((*out += std::to_string(cat_code<A&&>())), ...);
+        return 0;
+    }
+};
+// compile-time: the category is the visitor's return type
+struct CatT {
+    template <typename A>
+    auto operator()(A&& /*a*/) const -> std::integral_constant<int, cat_code<A&&>()> { return {}; }
+};
+// takes every alternative by value: copy or move constructs it from the reference it is handed
+struct TakeVis {
+    std::string* out;
+    template <typename... A>
+    int operator()(A... a) const
+    {
+        ((*out += show(a) + ","), ...);
+        return 0;
+    }
+};
+template <typename F>
+std::string matrix4(F&& f) // f(integral_constant<int,Q>) -> int code
+{
+    std::string r;
+    r += std::to_string(f(std::integral_constant<int, 0> {}));
+    r += std::to_string(f(std::integral_constant<int, 1> {}));
+    r += std::to_string(f(std::integral_constant<int, 2> {}));
+    r += std::to_string(f(std::integral_constant<int, 3> {}));
+    return r;
+}
 
 template <typename T>
 T bump(T const& x)
@@ -179,6 +290,9 @@ struct VarCfg final : Cfg {
     using SV = std::variant<Ts...>;
     static constexpr std::size_t N = sizeof...(Ts);
     static constexpr bool copyable = (std::is_copy_constructible_v<Ts> && ...);
+    // configurations on which the value-category observations are instantiated (keeps the build time down)
+    static constexpr bool cat_enabled = std::is_same_v<SV, std::variant<int, Trk>> || std::is_same_v<SV, std::variant<KQ, KX>>
+                                        || std::is_same_v<SV, std::variant<int, KD>> || std::is_same_v<SV, std::variant<Trk, int, float>>;
     template <std::size_t I>
     using alt = std::variant_alternative_t<I, SV>;
     template <typename T>
@@ -414,6 +528,48 @@ struct VarCfg final : Cfg {
             return fin("calls=" + std::to_string(ce) + " ret=" + std::to_string(re) + " " + ri,
                        "calls=" + std::to_string(cs) + " ret=" + std::to_string(rr) + " " + rs);
         }
+        if (op == "vcat") { // value category delivered by visit / unchecked_get / operator[] (observed, compared with std)
+            if constexpr (cat_enabled) {
+                auto const& ks = l.list("s");
+                auto const& qs = l.list("q");
+                bool take      = l.str("vis") == "take";
+                if (ks.size() != qs.size() || ks.empty() || ks.size() > 2) { return BAD; }
+                for (std::size_t t = 0; t < ks.size(); ++t) {
+                    if (ks[t] < 0 || static_cast<std::size_t>(ks[t]) >= e.size() || qs[t] < 0 || qs[t] > 3) { return BAD; }
+                }
+                if (take && ks.size() == 2 && ks[0] == ks[1]) { return BAD; }
+                std::string ri, rs;
+                auto run = [&](auto vis_e, auto vis_s) {
+                    if (ks.size() == 1) {
+                        with_index<4>(static_cast<std::size_t>(qs[0]), [&](auto Q) {
+                            etl::visit(vis_e, as_cat<decltype(Q)::value>(*e[ks[0]]));
+                            std::visit(vis_s, as_cat<decltype(Q)::value>(*s[ks[0]]));
+                        });
+                    } else {
+                        with_index<4>(static_cast<std::size_t>(qs[0]), [&](auto Q) {
+                            with_index<4>(static_cast<std::size_t>(qs[1]), [&](auto P) {
+                                etl::visit(vis_e, as_cat<decltype(Q)::value>(*e[ks[0]]), as_cat<decltype(P)::value>(*e[ks[1]]));
+                                std::visit(vis_s, as_cat<decltype(Q)::value>(*s[ks[0]]), as_cat<decltype(P)::value>(*s[ks[1]]));
+                            });
+                        });
+                    }
+                };
+                if (take) {
+                    run(TakeVis {&ri}, TakeVis {&rs});
+                    return fin("take=" + ri, "take=" + rs);
+                }
+                run(CatVis {&ri}, CatVis {&rs});
+                // compile-time matrix (decltype): object category -> category of visit's argument, unchecked_get / std::get, operator[]
+                auto cte = matrix4([](auto Q) { return decltype(etl::visit(CatT {}, as_cat<decltype(Q)::value>(std::declval<EV&>())))::value; });
+                auto cts = matrix4([](auto Q) { return decltype(std::visit(CatT {}, as_cat<decltype(Q)::value>(std::declval<SV&>())))::value; });
+                auto ge  = matrix4([](auto Q) { return cat_code<decltype(etl::unchecked_get<0>(as_cat<decltype(Q)::value>(std::declval<EV&>())))>(); });
+                auto gs  = matrix4([](auto Q) { return cat_code<decltype(std::get<0>(as_cat<decltype(Q)::value>(std::declval<SV&>())))>(); });
+                auto se  = matrix4([](auto Q) { return cat_code<decltype(as_cat<decltype(Q)::value>(std::declval<EV&>())[etl::index_v<0>])>(); });
+                return fin("cat=" + ri + " ct=" + cte + " get=" + ge + " sub=" + se, "cat=" + rs + " ct=" + cts + " get=" + gs + " sub=" + gs);
+            } else {
+                return BAD;
+            }
+        }
         return BAD;
     }
 };
@@ -647,6 +803,31 @@ struct OptCfg final : Cfg {
                 auto re = e[k]->or_else(fe);
                 auto rs = s[k]->or_else(fs);
                 return fin("calls=" + std::to_string(ce) + " " + st1(re), "calls=" + std::to_string(cs) + " " + st1(rs));
+            } else {
+                return fin("nc", "nc");
+            }
+        }
+        if (op == "ocat") { // value category of operator* and of and_then's argument; `take`: T x = *<category>(o)
+            if constexpr (copyable) {
+                auto k = slot("s");
+                auto q = l.i("q");
+                if (q < 0 || q > 3) { return BAD; }
+                auto de = matrix4([](auto Q) { return cat_code<decltype(*as_cat<decltype(Q)::value>(std::declval<EO&>()))>(); });
+                auto ds = matrix4([](auto Q) { return cat_code<decltype(*as_cat<decltype(Q)::value>(std::declval<SO&>()))>(); });
+                int ae = -1, as = -1;
+                std::string te = "-", ts = "-";
+                with_index<4>(static_cast<std::size_t>(q), [&](auto Q) {
+                    constexpr int C = decltype(Q)::value;
+                    (void)as_cat<C>(*e[k]).and_then([&]<typename A>(A&&) { ae = cat_code<A&&>(); return EO(); });
+                    (void)as_cat<C>(*s[k]).and_then([&]<typename A>(A&&) { as = cat_code<A&&>(); return SO(); });
+                    if (l.has("take") && e[k]->has_value() && s[k]->has_value()) {
+                        T x = *as_cat<C>(*e[k]);
+                        T y = *as_cat<C>(*s[k]);
+                        te  = show(x);
+                        ts  = show(y);
+                    }
+                });
+                return fin("deref=" + de + " at=" + std::to_string(ae) + " take=" + te, "deref=" + ds + " at=" + std::to_string(as) + " take=" + ts);
             } else {
                 return fin("nc", "nc");
             }
@@ -941,36 +1122,155 @@ struct ExpCfg final : Cfg {
                 return fin("nc", "nc");
             }
         }
+        if (op == "ecat") { // value category of operator*, error(), and of the argument and_then / or_else hand to f
+            if constexpr (copyable) {
+                auto k = slot("s");
+                auto q = l.i("q");
+                if (q < 0 || q > 3) { return BAD; }
+                auto de = matrix4([](auto Q) { return cat_code<decltype(*as_cat<decltype(Q)::value>(std::declval<EX&>()))>(); });
+                auto ds = matrix4([](auto Q) { return cat_code<decltype(*as_cat<decltype(Q)::value>(std::declval<SX&>()))>(); });
+                auto ee = matrix4([](auto Q) { return cat_code<decltype(as_cat<decltype(Q)::value>(std::declval<EX&>()).error())>(); });
+                auto es = matrix4([](auto Q) { return cat_code<decltype(as_cat<decltype(Q)::value>(std::declval<SX&>()).error())>(); });
+                int ae = -1, oe = -1;
+                with_index<4>(static_cast<std::size_t>(q), [&](auto Q) {
+                    constexpr int C = decltype(Q)::value;
+                    (void)as_cat<C>(*e[k]).and_then([&]<typename A>(A&&) { ae = cat_code<A&&>(); return EX(); });
+                    (void)as_cat<C>(*e[k]).or_else([&]<typename A>(A&&) { oe = cat_code<A&&>(); return EX(); });
+                });
+                // [expected.object.monadic] (libstdc++ 12 has no monadic members): f is invoked with `**this` / `error()` for
+                // & and const&, with `std::move(**this)` / `std::move(error())` for && and const&&: the object's own category
+                int as = s[k]->has_value() ? static_cast<int>(q) : -1;
+                int os = s[k]->has_value() ? -1 : static_cast<int>(q);
+                if (q == 2) { // an rvalue expected: or_else moves the value into its result, and_then the error
+                    if (s[k]->has_value()) {
+                        SX moved(std::in_place, std::move(**s[k]));
+                    } else {
+                        SX moved(std::unexpect, std::move(s[k]->error()));
+                    }
+                }
+                return fin("deref=" + de + " err=" + ee + " at=" + std::to_string(ae) + " oe=" + std::to_string(oe),
+                           "deref=" + ds + " err=" + es + " at=" + std::to_string(as) + " oe=" + std::to_string(os));
+            } else {
+                return fin("nc", "nc");
+            }
+        }
         return BAD;
     }
 };
 
 // ---------------------------------------------------------------- dispatch
-static std::unique_ptr<Cfg> make(std::string const& kind, std::string const& alts, std::size_t n)
+// The configurations are instantiated in 8 groups so that the build can compile them in parallel:
+// -DC07_PART=k (k = 0..7) compiles only make_part<k>; -DC07_PART=-1 compiles main() and links the parts;
+// without C07_PART everything is one translation unit.
+using Made = std::unique_ptr<Cfg>;
+Made make_part0(std::string const& kind, std::string const& alts, std::size_t n);
+Made make_part1(std::string const& kind, std::string const& alts, std::size_t n);
+Made make_part2(std::string const& kind, std::string const& alts, std::size_t n);
+Made make_part3(std::string const& kind, std::string const& alts, std::size_t n);
+Made make_part4(std::string const& kind, std::string const& alts, std::size_t n);
+Made make_part5(std::string const& kind, std::string const& alts, std::size_t n);
+Made make_part6(std::string const& kind, std::string const& alts, std::size_t n);
+Made make_part7(std::string const& kind, std::string const& alts, std::size_t n);
+
+#if !defined(C07_PART) || C07_PART == 0
+Made make_part0(std::string const& kind, std::string const& alts, std::size_t n)
 {
-    if (kind == "var") {
-        if (alts == "if") { return std::make_unique<VarCfg<int, float>>(n); }
-        if (alts == "fi") { return std::make_unique<VarCfg<float, int>>(n); }
-        if (alts == "it") { return std::make_unique<VarCfg<int, Trk>>(n); }
-        if (alts == "ti") { return std::make_unique<VarCfg<Trk, int>>(n); }
-        if (alts == "tif") { return std::make_unique<VarCfg<Trk, int, float>>(n); }
-        if (alts == "ift") { return std::make_unique<VarCfg<int, float, Trk>>(n); }
-        if (alts == "tm") { return std::make_unique<VarCfg<Trk, Mo>>(n); }
-        if (alts == "iftm") { return std::make_unique<VarCfg<int, float, Trk, Mo>>(n); }
-        if (alts == "fm") { return std::make_unique<VarCfg<float, Mo>>(n); }
-    } else if (kind == "opt") {
-        if (alts == "i") { return std::make_unique<OptCfg<int, long>>(n); }
-        if (alts == "f") { return std::make_unique<OptCfg<float, int>>(n); }
-        if (alts == "t") { return std::make_unique<OptCfg<Trk, int>>(n); }
-        if (alts == "m") { return std::make_unique<OptCfg<Mo, int>>(n); }
-    } else if (kind == "oref") {
-        return std::make_unique<ORefCfg>(n);
-    } else if (kind == "exp") {
-        if (alts == "it") { return std::make_unique<ExpCfg<int, Trk>>(n); }
-        if (alts == "ti") { return std::make_unique<ExpCfg<Trk, int>>(n); }
-        if (alts == "if") { return std::make_unique<ExpCfg<int, float>>(n); }
-        if (alts == "tm") { return std::make_unique<ExpCfg<Trk, Mo>>(n); }
-    }
+    if (kind == "var" && alts == "if") { return std::make_unique<VarCfg<int, float>>(n); }
+    if (kind == "var" && alts == "fi") { return std::make_unique<VarCfg<float, int>>(n); }
+    if (kind == "var" && alts == "it") { return std::make_unique<VarCfg<int, Trk>>(n); }
+    return nullptr;
+}
+#endif
+
+#if !defined(C07_PART) || C07_PART == 1
+Made make_part1(std::string const& kind, std::string const& alts, std::size_t n)
+{
+    if (kind == "var" && alts == "ti") { return std::make_unique<VarCfg<Trk, int>>(n); }
+    if (kind == "var" && alts == "tif") { return std::make_unique<VarCfg<Trk, int, float>>(n); }
+    if (kind == "var" && alts == "fm") { return std::make_unique<VarCfg<float, Mo>>(n); }
+    return nullptr;
+}
+#endif
+
+#if !defined(C07_PART) || C07_PART == 2
+Made make_part2(std::string const& kind, std::string const& alts, std::size_t n)
+{
+    if (kind == "var" && alts == "ift") { return std::make_unique<VarCfg<int, float, Trk>>(n); }
+    if (kind == "var" && alts == "tm") { return std::make_unique<VarCfg<Trk, Mo>>(n); }
+    if (kind == "var" && alts == "iftm") { return std::make_unique<VarCfg<int, float, Trk, Mo>>(n); }
+    return nullptr;
+}
+#endif
+
+#if !defined(C07_PART) || C07_PART == 3
+Made make_part3(std::string const& kind, std::string const& alts, std::size_t n)
+{
+    if (kind == "var" && alts == "ic") { return std::make_unique<VarCfg<int, KC>>(n); }
+    if (kind == "var" && alts == "id") { return std::make_unique<VarCfg<int, KD>>(n); }
+    if (kind == "var" && alts == "ia") { return std::make_unique<VarCfg<int, KA>>(n); }
+    if (kind == "var" && alts == "ib") { return std::make_unique<VarCfg<int, KB>>(n); }
+    return nullptr;
+}
+#endif
+
+#if !defined(C07_PART) || C07_PART == 4
+Made make_part4(std::string const& kind, std::string const& alts, std::size_t n)
+{
+    if (kind == "var" && alts == "qx") { return std::make_unique<VarCfg<KQ, KX>>(n); }
+    if (kind == "var" && alts == "cb") { return std::make_unique<VarCfg<KC, KB>>(n); }
+    if (kind == "opt" && alts == "i") { return std::make_unique<OptCfg<int, long>>(n); }
+    if (kind == "opt" && alts == "f") { return std::make_unique<OptCfg<float, int>>(n); }
+    return nullptr;
+}
+#endif
+
+#if !defined(C07_PART) || C07_PART == 5
+Made make_part5(std::string const& kind, std::string const& alts, std::size_t n)
+{
+    if (kind == "opt" && alts == "t") { return std::make_unique<OptCfg<Trk, int>>(n); }
+    if (kind == "opt" && alts == "m") { return std::make_unique<OptCfg<Mo, int>>(n); }
+    if (kind == "opt" && alts == "c") { return std::make_unique<OptCfg<KC, int>>(n); }
+    if (kind == "opt" && alts == "d") { return std::make_unique<OptCfg<KD, int>>(n); }
+    return nullptr;
+}
+#endif
+
+#if !defined(C07_PART) || C07_PART == 6
+Made make_part6(std::string const& kind, std::string const& alts, std::size_t n)
+{
+    if (kind == "opt" && alts == "a") { return std::make_unique<OptCfg<KA, int>>(n); }
+    if (kind == "opt" && alts == "b") { return std::make_unique<OptCfg<KB, int>>(n); }
+    if (kind == "opt" && alts == "x") { return std::make_unique<OptCfg<KX, int>>(n); }
+    if (kind == "oref") { return std::make_unique<ORefCfg>(n); }
+    return nullptr;
+}
+#endif
+
+#if !defined(C07_PART) || C07_PART == 7
+Made make_part7(std::string const& kind, std::string const& alts, std::size_t n)
+{
+    if (kind == "exp" && alts == "it") { return std::make_unique<ExpCfg<int, Trk>>(n); }
+    if (kind == "exp" && alts == "ti") { return std::make_unique<ExpCfg<Trk, int>>(n); }
+    if (kind == "exp" && alts == "if") { return std::make_unique<ExpCfg<int, float>>(n); }
+    if (kind == "exp" && alts == "tm") { return std::make_unique<ExpCfg<Trk, Mo>>(n); }
+    if (kind == "exp" && alts == "ic") { return std::make_unique<ExpCfg<int, KC>>(n); }
+    if (kind == "exp" && alts == "qx") { return std::make_unique<ExpCfg<KQ, KX>>(n); }
+    if (kind == "exp" && alts == "db") { return std::make_unique<ExpCfg<KD, KB>>(n); }
+    return nullptr;
+}
+#endif
+
+#if !defined(C07_PART) || C07_PART == -1
+static Made make(std::string const& kind, std::string const& alts, std::size_t n)
+{
+    if (auto p = make_part0(kind, alts, n)) { return p; }
+    if (auto p = make_part1(kind, alts, n)) { return p; }
+    if (auto p = make_part2(kind, alts, n)) { return p; }
+    if (auto p = make_part3(kind, alts, n)) { return p; }
+    if (auto p = make_part4(kind, alts, n)) { return p; }
+    if (auto p = make_part5(kind, alts, n)) { return p; }
+    if (auto p = make_part6(kind, alts, n)) { return p; }
+    if (auto p = make_part7(kind, alts, n)) { return p; }
     return nullptr;
 }
 
@@ -992,3 +1292,4 @@ int main(int argc, char** argv)
         return cur->step(l);
     });
 }
+#endif
